@@ -289,6 +289,12 @@ pub fn write_text_replay(id: &str, kind: &str, key: &str, msg: &str, text: &str)
 pub struct Watch {
     /// per worker: ms since start at which the current case began (0 = idle)
     slots: Vec<AtomicU64>,
+    /// per worker: the case being run (for the hang report)
+    current: Vec<std::sync::Mutex<Option<Streams>>>,
+    /// violations found so far (a hang elsewhere must not hide them)
+    found: std::sync::Mutex<Vec<Failure>>,
+    tier: &'static str,
+    seed: u64,
     start: Instant,
     done: AtomicBool,
 }
@@ -305,6 +311,21 @@ fn spawn_watchdog(w: Arc<Watch>, id: String) {
         for (i, s) in w.slots.iter().enumerate() {
             let t = s.load(Ordering::Relaxed);
             if t != 0 && now.saturating_sub(t) > CASE_TIMEOUT_MS {
+                let hung = w.current[i].lock().ok().and_then(|g| g.clone());
+                if let Some(st) = hung {
+                    let f = Failure { streams: st, key: "hang".into(), msg: "case did not finish within the per-case time limit".into(), render: Value::Null };
+                    let path = write_replay(&id, w.tier, w.seed, &f);
+                    println!("hung case written to {}", path.display());
+                }
+                let found = w.found.lock().map(|g| g.clone()).unwrap_or_default();
+                if let Some(f) = found.first() {
+                    let path = write_replay(&id, w.tier, w.seed, f);
+                    println!("VIOLATION property={} replay={}", id, path.display());
+                    println!("  key: {}", f.key);
+                    println!("  {}", f.msg.replace('\n', "\n  "));
+                    println!("(another worker hung afterwards; evidence file not rewritten)");
+                    std::process::exit(1);
+                }
                 println!(
                     "INCONCLUSIVE property={id} a single case ran longer than {} s in worker {i} (hang or slowness; not a violation)",
                     CASE_TIMEOUT_MS / 1000
@@ -368,6 +389,10 @@ pub fn run_property(p: &dyn Property, tier: Tier, seed: u64) -> RunResult {
     // 3. random search
     let watch = Arc::new(Watch {
         slots: (0..workers).map(|_| AtomicU64::new(0)).collect(),
+        current: (0..workers).map(|_| std::sync::Mutex::new(None)).collect(),
+        found: std::sync::Mutex::new(vec![]),
+        tier: tier.name(),
+        seed,
         start,
         done: AtomicBool::new(false),
     });
@@ -404,6 +429,9 @@ pub fn run_property(p: &dyn Property, tier: Tier, seed: u64) -> RunResult {
                             return Ok(());
                         }
                         let s: Streams = [a, b, c];
+                        if let Ok(mut g) = watch.current[w].lock() {
+                            *g = Some(s.clone());
+                        }
                         watch.slots[w].store(watch.start.elapsed().as_millis() as u64 + 1, Ordering::Relaxed);
                         let out = p.run(&s);
                         watch.slots[w].store(0, Ordering::Relaxed);
@@ -464,6 +492,13 @@ pub fn run_property(p: &dyn Property, tier: Tier, seed: u64) -> RunResult {
                             render: Value::Null,
                         }),
                     };
+                    if let Some(f) = &failure {
+                        if f.key != "abort" && f.key != "flaky" {
+                            if let Ok(mut g) = watch.found.lock() {
+                                g.push(f.clone());
+                            }
+                        }
+                    }
                     (stats.into_inner(), failure)
                 })
                 .expect("spawn worker");
